@@ -328,7 +328,7 @@ let ch_c18 hex vec chain kind =
 
 (* ---- zip (C19) ---- *)
 (* c19 <names hex,..> <footprints> <first body hex|deflated> <chain> <kind> <head of archive> *)
-let ch_c19 namesf footf firstf chain kind _ahead =
+let ch_c19 namesf footf firstf chain kind _ahead k5s =
   let names = List.map bytes_of_hex (String.split_on_char ',' namesf) in
   let foot = List.map int_of_string (String.split_on_char ',' footf) in
   let first_body = if firstf = "deflated" then None else Some (bytes_of_hex firstf) in
@@ -346,12 +346,13 @@ let ch_c19 namesf footf firstf chain kind _ahead =
       else k2 (i + 1) rest in
   let k2f = k2 0 names in
   let k3f = has_apk_marker names in
+  (* K5: an entry name that is a proper prefix of a marker (OOXML, JAR or APK) is continued by the bytes that follow it
+     in the archive (extra field / body), so that the raw bytes at the name offset spell the marker: the harness decides
+     this on the archive itself and passes the flag *)
+  let k5f = (k5s = "1") in
   let fw = c19_forward names first_body head in
-  if fw <> [] then propfail "C19" (Printf.sprintf "%s: names=[%s] footprints=[%s] result=%s short-entry-before-marker=%b apk-marker-present=%b kind=%s" (string_of_bytes fw) names_s footf chain k2f k3f kind);
+  if fw <> [] then propfail "C19" (Printf.sprintf "%s: names=[%s] footprints=[%s] result=%s short-entry-before-marker=%b apk-marker-present=%b name-plus-body-match=%b kind=%s" (string_of_bytes fw) names_s footf chain k2f k3f k5f kind);
   let cv = c19_converse names first_body head in
-  (* K5: an entry name that is a proper prefix of a marker can be continued by the first bytes of its body *)
-  let proper_prefix n = List.exists (fun m -> let mb = bytes_of_string m in List.length n < List.length mb && has_prefix n mb && n <> []) ["word/"; "xl/"; "ppt/"] in
-  let k5f = List.exists proper_prefix names in
   if cv <> [] then propfail "C19" (Printf.sprintf "%s: names=[%s] result=%s name-plus-body-match=%b kind=%s" (string_of_bytes cv) names_s chain k5f kind);
   (* (when the converse clause already reported this archive - an OOXML / JAR / APK verdict without its marker -
      the same fact is not reported a second time under the weaker "stays plain zip" clause) *)
@@ -583,7 +584,7 @@ let () =
        | ["extl"; h; n; g] -> ch_extl h n g
        | ["extdone"; _] -> ()
        | ["rd"; x; l; sc; sh; sl; dv; er; ch; dch; k] -> ch_rd x l sc sh sl dv er ch dch k
-       | ["c19"; n; f; fb; chain; kind; ah] -> ch_c19 n f fb chain kind ah
+       | ["c19"; n; f; fb; chain; kind; ah; k5] -> ch_c19 n f fb chain kind ah k5
        | ["c12h"; d; t; o; ty; cs; l; k] -> ch_c12h d t o ty cs l k
        | ["c12x"; d; o; ty; cs; l; k] -> ch_c12x d o ty cs l k
        | ["c12f"; s; m; x] -> ch_c12f s m x
